@@ -3627,34 +3627,36 @@ class DynamicBucketDataset(Dataset):
                 data = bucket.data
                 if self.sort_key is not None:
                     data = sorted(data, key=self.sort_key, reverse=self.reverse_sort)
-                yield data
+                # Count before the batch is handed out: the consumer may
+                # change it in place (e.g. pad it).
                 buffered_count -= len(data)
+                yield data
                 buckets.pop(j)
 
             if self.expiration is not None:
                 for j, (bucket, creation_idx) in enumerate(buckets):
                     if (i - creation_idx) >= self.expiration:
                         data = bucket.data
+                        buffered_count -= len(data)
                         if not self.drop_incomplete:
                             if self.sort_key is not None:
                                 data = sorted(data, key=self.sort_key, reverse=self.reverse_sort)
                             yield data
                         else:
                             dropped_count += len(data)
-                        buffered_count -= len(data)
                         buckets.pop(j)
                         break
 
             if self.max_buffered_examples is not None:
                 while buffered_count > self.max_buffered_examples:
                     data = buckets.pop(0)[0].data
+                    buffered_count -= len(data)
                     if not self.drop_incomplete:
                         if self.sort_key is not None:
                             data = sorted(data, key=self.sort_key, reverse=self.reverse_sort)
                         yield data
                     else:
                         dropped_count += len(data)
-                    buffered_count -= len(data)
 
         for bucket, _ in buckets:
             data = bucket.data
